@@ -31,6 +31,7 @@ stored went through `ValidateBasic` -/
 structure WF (s : State) : Prop where
   nd_classes : (AMap.keys s.classes).Nodup
   nd_tokens  : (AMap.keys s.tokens).Nodup
+  nd_owners  : (AMap.keys s.owners).Nodup
   nd_idx     : (AMap.keys s.idx).Nodup
   /-- a class id is a legal denom id and its creator is an address -/
   class_ok   : ∀ c cl, AMap.get? s.classes c = some cl → validDenomId c = true ∧ validAddr cl.creator = true
